@@ -175,6 +175,10 @@ def leg_interleave(ns, res, spec):
 
         def on_run(s, results, excs):
             res.evaluations += 1
+            if s.blocked is not None:
+                res.violation('py:interleaving-never-completes:%s+%s' % (SCENARIOS[i][0], SCENARIOS[j][0]), '[py] under schedule %s the queries cannot complete: %s (%s | %s)' % (
+                    ''.join(str(t + 1) for t in s.trace), s.blocked, SCENARIOS[i][1], SCENARIOS[j][1]), {'leg': 'interleave', 'pair': [i, j], 'schedule': s.trace, 'R': R, 'step_kinds': list(kinds)})
+                return False
             per_thread = [sum(1 for t in s.trace if t == tid) for tid in (0, 1)]
             if per_thread != expected_steps:
                 res.violation('py:step-structure-depends-on-interleaving:%s+%s' % (SCENARIOS[i][0], SCENARIOS[j][0]), '[py] under schedule %s the two queries performed %r read/write steps, alone they perform %r (%s | %s)' % (
@@ -382,6 +386,10 @@ def leg_generated(ns, res, spec):
             s, results, excs = sched.run_schedule([body(i, '1'), body(j, '2')], [], chooser=lambda enabled, k: srng.choice(enabled))
             res.evaluations += 1
             res.count('generated_interleaved_schedules')
+            if s.blocked is not None:
+                res.violation('py:interleaving-never-completes:generated', '[py] under schedule %s the queries cannot complete: %s (%s | %s)' % (
+                    ''.join(str(t + 1) for t in s.trace), s.blocked, cases[i]['query_text'], cases[j]['query_text']), {'leg': 'generated-interleave'})
+                continue
             res.count('generated_interleaved_handoffs', s.handoffs)
             res.nontrivial('gen-il', cases[i]['query_text'], cases[j]['query_text'], tuple(s.trace))
             for tid, idx in ((0, i), (1, j)):
@@ -1057,6 +1065,9 @@ def replay(case, res):
             return lambda step: observe(ns, idx, R, on_step=(lambda w, op: step(w, op) if op in kinds else None), who=who)
         s, results, excs = sched.run_schedule([body(i, '1'), body(j, '2')], case['schedule'])
         res.evaluations += 1
+        if s.blocked is not None:
+            res.violation('py:interleaving-never-completes:replay', '[py] the schedule cannot complete: %s' % s.blocked, case)
+            return
         for tid, idx in ((0, i), (1, j)):
             compare_with_solo(res, idx, results[tid], solo[idx], 'interleaved:replay', case)
     elif case.get('leg') == 'history':
